@@ -165,8 +165,8 @@ impl Property for C09 {
 
     fn runs(&self, tier: Tier) -> u64 {
         match tier {
-            Tier::Quick => 2500,
-            Tier::Thorough => 60000,
+            Tier::Quick => 10000,
+            Tier::Thorough => 800000,
         }
     }
 
